@@ -238,6 +238,16 @@ def run_persist_history(cfg, steps, path):
             elif k == "tick":
                 if pg.tick():
                     out["ticks"] += 1
+            elif k == "tick-unwritable":
+                # a periodic save while the directory of the file is away for a moment: nothing can be written
+                d = os.path.dirname(path)
+                os.rename(d, d + ".away")
+                try:
+                    if pg.tick():
+                        out["ticks"] += 1
+                        out["unwritable_ticks"] = out.get("unwritable_ticks", 0) + 1
+                finally:
+                    os.rename(d + ".away", d)
             elif k in ("restart", "stop", "stop-during-tick"):
                 before = projection(pg.gw.sensors)
                 late = st[1] if len(st) > 1 else None
